@@ -117,6 +117,10 @@ def parseTerm : Nat → List String → Option (Term × List String)
     | "kfold" => un fun t => (foldFn arg).map (fun a => .kfold a.2.1 a.2.2 t)
     | "foldb" => un fun t => (foldFn arg).map (fun a => .foldB a.2.1 a.2.2 t)
     | "xsing" => bin .crossSingleton
+    | "reduceb" => un fun t => (reduceFn arg).map (fun f => .reduceB f t)
+    | "joinb" => bin .joinHalfS
+    | "antijoinb" => bin .antiJoinS
+    | "notinb" => bin .differenceS
     | "smap" => un fun t => (mapFn arg).map (fun f => .smap f t)
     | "sfilter" => un fun t => (predFn arg).map (fun p => .sfilter p t)
     | _ => none
